@@ -58,6 +58,9 @@ def main(argv=None):
     ap.add_argument("--replay")
     ap.add_argument("--no-evidence", action="store_true")
     ap.add_argument("--list", action="store_true")
+    ap.add_argument("--selftest", metavar="SUBSTRING",
+                    help="development aid: run only the self-test variants "
+                         "whose id contains SUBSTRING (quick-tier rules)")
     ap.add_argument("-v", "--verbose", action="store_true")
     args = ap.parse_args(argv)
 
@@ -86,6 +89,10 @@ def main(argv=None):
     try:
         results, errors = run_property(prop, ctx, args.rule)
         selftest = None
+        if args.selftest:
+            from .selftest import run_selftest
+            st = run_selftest(prop, ctx, only=args.selftest)
+            return 1 if st["errors"] else 0
         if args.tier == "thorough" and not args.rule:
             from .selftest import run_selftest
             selftest = run_selftest(prop, ctx)
